@@ -296,8 +296,20 @@ def _name(kind, atoms, shells, alignment, perm_seed, sort_grids, lmax):
                                                  perm_seed, "sorted" if sort_grids else "unsorted", lmax)
 
 
+def h_lmax_table(env):
+    """the table gen_atomic_grids_cider uses to truncate each angular shell's spherical harmonics: for every Lebedev size PySCF
+    offers, LMAX_DICT[n] is half the algebraic order of that quadrature (it integrates Y_l Y_l' exactly for l, l' <= order // 2, so
+    the stored harmonics are orthonormal up to that degree and must be zeroed above it).  Table data only: concrete facts."""
+    gcg = env.m.gen_cider_grid
+    from pyscf.dft.gen_grid import LEBEDEV_NGRID, LEBEDEV_ORDER
+    env.check("every_lebedev_size_has_an_entry", set(int(n) for n in LEBEDEV_NGRID) <= set(int(k) for k in gcg.LMAX_DICT), "missing: %s" % sorted(set(int(n) for n in LEBEDEV_NGRID) - set(int(k) for k in gcg.LMAX_DICT)))
+    for order, n in sorted(LEBEDEV_ORDER.items()):
+        got = gcg.LMAX_DICT.get(n)
+        env.check("lmax_of_%d_point_shell_is_half_its_order_%d" % (n, order), got is not None and int(got) == order // 2, "LMAX_DICT[%d] = %r, order // 2 = %d" % (n, got, order // 2))
+
+
 def tasks(tier):
-    out = []
+    out = [Task("tables/lmax_per_lebedev_size", h_lmax_table, {}, mods="grids")]
     arr = _arrangements(tier)
     for ci, (atoms, shells) in enumerate(arr):
         for alignment in ((1, 4) if tier == "quick" else (1, 2, 4, 8)):
@@ -325,7 +337,7 @@ def prepare(tier):
 META = dict(
     explanation="gen_atomic_grids_cider, CiderGrids.build/prune_by_density_ and AtomicGridsIndexer executed symbolically with PySCF's primitives replaced by contract stubs; "
                 "z3 decides weights/coords == all_weights/all_coords[idx_map], ownership, padding and the shell tables",
-    functions=["ciderpress/pyscf/gen_cider_grid.py: gen_atomic_grids_cider, CiderGrids.gen_atomic_grids, build, prune_by_density_",
+    functions=['ciderpress/pyscf/gen_cider_grid.py: LMAX_DICT (tables/lmax_per_lebedev_size)', "ciderpress/pyscf/gen_cider_grid.py: gen_atomic_grids_cider, CiderGrids.gen_atomic_grids, build, prune_by_density_",
                "ciderpress/dft/grids_indexer.py: AtomicGridsIndexer.__init__, from_tabs, set_weights, set_idx, set_padding, get_idx"],
     bounds=dict(atoms="1-3 atoms of 1-2 element types", shells="1-3 radial shells per element, angular sizes 1/6 (and 14 thorough) in every order", alignment="1,4 quick; 1,2,4,8 thorough",
                 permutation="identity, reversal, seeded shuffles (not all permutations)", pruning="two rounds; kept/dropped symbolic on 2 points in round one and 1 point in round two (solver forking), all other points kept, padding dropped", lmax="1, 2"),
